@@ -40,6 +40,12 @@ def scenario(run, rng, pv, idx):
                 cb.login.SetCompressionPacket, cb.login.LoginSuccessPacket,
                 cb.play.TimeUpdatePacket, cb.play.DisconnectPacket,
                 sb.play.ChatPacket]          # the last never matches incoming
+    combat = pv >= 755
+    if combat:
+        # from 21w07a on the combat event is three packets, each a subclass
+        # of the (still listenable) CombatEventPacket
+        in_types += [cb.play.CombatEventPacket, cb.play.EndCombatEventPacket,
+                     cb.play.EnterCombatEventPacket]
 
     class MyChat(sb.play.ChatPacket):       # user subclass, matched via base
         pass
@@ -62,11 +68,22 @@ def scenario(run, rng, pv, idx):
     config = {'early_in': [], 'in': [], 'early_out': [], 'out': []}
     plugins = pv >= 385
 
-    def make_listener(lid, lst_name, types, ignore_for):
+    relayed = []        # packets written from inside an outgoing listener
+
+    def make_listener(lid, lst_name, types, ignore_for, relay=False):
         direction = 'out' if lst_name in ('early_out', 'out') else 'in'
 
         def callback(packet):
             note('cb.listener', packet, direction, lid=lid)
+            if relay and isinstance(packet, sb.play.ChatPacket) and \
+                    packet.message.startswith(('out-', 'late-')):
+                # a listener that itself writes: the nested packet goes
+                # through the whole listener chain like any other
+                p2 = sb.play.ChatPacket(message='relay%d:%s' % (
+                    lid, packet.message))
+                relayed.append(p2)
+                packets_alive.append(p2)
+                conn.write_packet(p2, force=True)
             if type(packet).__name__ in ignore_for:
                 raise IgnorePacket
         return callback
@@ -82,6 +99,9 @@ def scenario(run, rng, pv, idx):
     known = {k.get_id(ctx) for k in cb.play.get_packets(ctx)}
     unknown_id = next(i for i in (0x7E, 0x7D, 0x6B, 0x69) if i not in known)
     play_hist = ['ka'] * n_ka + ['chat'] * n_chat_in + ['unknown'] * n_unknown
+    if combat:
+        play_hist += ['combat-end'] * rng.randrange(0, 3) + \
+            ['combat-enter'] * rng.randrange(0, 2)
     rng.shuffle(play_hist)
     # phase 2: more listeners are registered *while the session is running*
     # (after packets of the same classes have already been dispatched), then a
@@ -123,6 +143,11 @@ def scenario(run, rng, pv, idx):
                 if kind == 'ka':
                     k += 1
                     cid, cp = codec.encode('cb_keep_alive', {'id': base + k})
+                elif kind == 'combat-end':
+                    from ..ref import wiretypes as wt, varint as vi
+                    cid, cp = 0x33, vi.encode(5) + wt.int_be(7, 4, True)
+                elif kind == 'combat-enter':
+                    cid, cp = 0x34, b''
                 elif kind == 'chat':
                     cid, cp = codec.encode('cb_chat', {
                         'json': '{"text":"in"}', 'position': 0,
@@ -174,6 +199,7 @@ def scenario(run, rng, pv, idx):
                      dir='out', n=len(data))
         conn.vf_send_hook = send_hook
         lid_counter = [0]
+        relays = []
 
         def register_batch(max_per_list):
             for lst_name, early, outgoing, pool in (
@@ -202,6 +228,17 @@ def scenario(run, rng, pv, idx):
                     else:
                         conn.listener(*types, **kw)(cbk)
                     config[lst_name].append((lid, types, ignore_for))
+            if rng.random() < 0.35:
+                lst_name = rng.choice(('early_out', 'out'))
+                lid_counter[0] += 1
+                lid = lid_counter[0]
+                types = rng.choice(((Packet,), (sb.play.ChatPacket,),
+                                    (sb.play.ChatPacket, MyChat)))
+                cbk = make_listener(lid, lst_name, types, (), relay=True)
+                conn.register_packet_listener(
+                    cbk, *types, outgoing=True, early=lst_name == 'early_out')
+                config[lst_name].append((lid, types, ()))
+                relays.append((lid, lst_name))
         register_batch(6)
         w['config'] = {k: [(l, [t.__name__ for t in ts], list(ig))
                            for l, ts, ig in v] for k, v in config.items()}
@@ -353,7 +390,8 @@ def scenario(run, rng, pv, idx):
             Packet, cb.play.KeepAlivePacket, cb.play.ChatMessagePacket,
             cb.login.PluginRequestPacket, cb.login.SetCompressionPacket,
             cb.login.LoginSuccessPacket, cb.play.TimeUpdatePacket,
-            cb.play.DisconnectPacket)}
+            cb.play.DisconnectPacket, cb.play.EndCombatEventPacket,
+            cb.play.EnterCombatEventPacket)}
         out_cls = {c.__name__: c for c in (
             sb.play.KeepAlivePacket, sb.play.ChatPacket, MyChat,
             sb.login.PluginResponsePacket, sb.handshake.HandShakePacket,
@@ -422,6 +460,17 @@ def scenario(run, rng, pv, idx):
                      if predict_out(type(p), config1)[1]] + \
                     [p.message for p, _f in sent_out2
                      if predict_out(type(p), config)[1]]
+        for batch, cfg in ((sent_out, config1), (sent_out2, config)):
+            for p, _f in batch:
+                reached = predict_out(type(p), cfg)[0]
+                for lid, _lst in relays:
+                    if lid in reached and \
+                            predict_out(sb.play.ChatPacket, cfg)[1]:
+                        want_chat.append('relay%d:%s' % (lid, p.message))
+                        run.count('nested_writes_from_listeners')
+        if combat:
+            run.count('combat_subclass_packets', sum(
+                1 for k in play_hist if k.startswith('combat')))
         if sorted(got_chat) != sorted(want_chat):
             run.violation('listeners/outgoing-suppression', 'an early outgoing'
                           ' ignore must keep the packet off the wire (and only'
@@ -538,3 +587,5 @@ def run(run):
     run.require('dispatched.out', 30)
     run.require('dispatched.in', 30)
     run.require('scenarios_with_late_registration', 5)
+    run.require('nested_writes_from_listeners', 5)
+    run.require('combat_subclass_packets', 5)
